@@ -2,6 +2,7 @@ package main
 
 import (
 	"fmt"
+	"go/token"
 	"go/types"
 	"strings"
 
@@ -347,6 +348,290 @@ func runC13(c *Ctx) {
 		}
 	}
 	c.Check(fname(hrf)+"#hashes-root", hrf.Pos(), usesRoot, ifelse(usesRoot, "hashes t.root", "hashRoot no longer hashes the trie's current root"))
+
+	// ------------------------------------------------------------ T6
+	c.Rule("C13.T6", "OWNERSHIP", "a cached hash belongs to one node: in package trie, a function that records a hash parameter as its node's cached hash (nodeFlag.hash) hands that same hash on only to build THAT node (delegation); the result of such a call is never stored as a child (Children[i] / Val) — an embedded child carrying its parent's hash collapses to the parent's reference at the next re-hash and the root stops being a function of the content")
+	c.Min(4)
+	// H: functions of package trie with a parameter that reaches a nodeFlag.hash store (directly or through another H function)
+	type hparam struct {
+		fn  *ssa.Function
+		idx int
+	}
+	H := map[*ssa.Function]int{}
+	isHashFlagStore := func(st *ssa.Store) bool {
+		fa, ok := st.Addr.(*ssa.FieldAddr)
+		if !ok {
+			return false
+		}
+		f := fieldOfAddr(fa)
+		return f != nil && f.Name() == "hash" && fieldOwner(w, f) == "nodeFlag"
+	}
+	trieFns := []*ssa.Function{}
+	for _, fn := range w.FuncsIn("trie") {
+		if strings.HasSuffix(w.fileOf(fn.Pos()), "_test.go") || fn.Blocks == nil {
+			continue
+		}
+		trieFns = append(trieFns, fn)
+	}
+	paramIdx := func(fn *ssa.Function, v ssa.Value) int {
+		found := -1
+		backward(v, func(x ssa.Value) bool {
+			if p, ok := x.(*ssa.Parameter); ok && p.Parent() == fn {
+				if _, isIface := p.Type().Underlying().(*types.Interface); isIface {
+					return false // a node, not a hash
+				}
+				for i, q := range fn.Params {
+					if q == p {
+						found = i
+					}
+				}
+			}
+			if _, ok := x.(*ssa.Call); ok {
+				return false // a computed hash, not the one handed in
+			}
+			return found < 0
+		})
+		return found
+	}
+	for changed := true; changed; {
+		changed = false
+		for _, fn := range trieFns {
+			if _, ok := H[fn]; ok {
+				continue
+			}
+			for _, b := range fn.Blocks {
+				for _, in := range b.Instrs {
+					switch x := in.(type) {
+					case *ssa.Store:
+						if isHashFlagStore(x) {
+							if i := paramIdx(fn, x.Val); i >= 0 {
+								H[fn] = i
+								changed = true
+							}
+						}
+					case ssa.CallInstruction:
+						if g := staticCallee(x); g != nil {
+							if gi, ok := H[g]; ok && gi < len(x.Common().Args) {
+								if i := paramIdx(fn, x.Common().Args[gi]); i >= 0 {
+									if _, done := H[fn]; !done {
+										H[fn] = i
+										changed = true
+									}
+								}
+							}
+						}
+					}
+				}
+			}
+		}
+	}
+	storedAsChild := func(v ssa.Value) (bool, token.Pos) {
+		seen := map[ssa.Value]bool{}
+		var walk func(ssa.Value) (bool, token.Pos)
+		walk = func(v ssa.Value) (bool, token.Pos) {
+			if seen[v] || v.Referrers() == nil {
+				return false, token.NoPos
+			}
+			seen[v] = true
+			for _, r := range *v.Referrers() {
+				switch x := r.(type) {
+				case *ssa.Store:
+					if x.Val == v {
+						if _, f := nodeBase(x.Addr); contentField(f) {
+							return true, x.Pos()
+						}
+						// spilled into a local and read back
+						if al, ok := x.Addr.(*ssa.Alloc); ok {
+							for _, rr := range *al.Referrers() {
+								if ld, ok := rr.(*ssa.UnOp); ok {
+									if hit, p := walk(ld); hit {
+										return true, p
+									}
+								}
+							}
+						}
+					}
+				case *ssa.Phi, *ssa.ChangeInterface, *ssa.MakeInterface, *ssa.ChangeType, *ssa.TypeAssert, *ssa.Extract:
+					if hit, p := walk(x.(ssa.Value)); hit {
+						return true, p
+					}
+				}
+			}
+			return false, token.NoPos
+		}
+		return walk(v)
+	}
+	nT6 := 0
+	for _, fn := range trieFns {
+		k := 0
+		for _, ci := range callInstrs(fn) {
+			g := staticCallee(ci)
+			gi, ok := H[g]
+			if g == nil || !ok || gi >= len(ci.Common().Args) {
+				continue
+			}
+			c.sites++
+			c.sawFunc(fname(fn))
+			nT6++
+			arg := ci.Common().Args[gi]
+			cons := fmt.Sprintf("%s#hash-handed-to-%s-%d", fname(fn), g.Name(), k)
+			k++
+			if isNilConst(stripConvNoBind(arg)) {
+				c.Check(cons, ci.Pos(), true, "no cached hash is handed on (nil)")
+				continue
+			}
+			cv, isVal := ci.(ssa.Value)
+			if !isVal {
+				c.Check(cons, ci.Pos(), true, "result unused")
+				continue
+			}
+			if fi, inH := H[fn]; !inH || paramIdx(fn, arg) != fi {
+				c.Check(cons, ci.Pos(), true, "the hash handed on is not the one this function records for its own node")
+				continue
+			}
+			hit, _ := storedAsChild(cv)
+			c.Check(cons, ci.Pos(), !hit, ifelse(!hit, "the node built with this hash is not stored as another node's child here", "the node built with this cached hash is stored as the child of another node: an embedded child now claims its parent's (or a foreign) hash, is written as that reference at the next re-hash, and root, lookups and iteration depend on history"))
+		}
+	}
+	if nT6 == 0 {
+		c.Undecided("trie#cached-hash-constructors", token.NoPos, "no function recording a parameter as nodeFlag.hash was found")
+	}
+
+	// ------------------------------------------------------------ T7
+	c.Rule("C13.T7", "MUST-PASS", "(*Trie).Prove collects every short or full node it visits — also the one on which the key diverges — before moving on: a proof of absence must end with the node that proves the absence, otherwise VerifyProof cannot resolve the last reference and rejects an honest proof")
+	c.Min(2)
+	prove := w.Fn("trie", "Trie", "Prove")
+	c.sawFunc(fname(prove))
+	nT7 := 0
+	for _, pf := range withSmallHelpers(prove) {
+		if pf != prove {
+			continue
+		}
+		// appends: call to builtin append whose variadic slice holds value v
+		appended := func(n ssa.Value) []ssa.Instruction {
+			var out []ssa.Instruction
+			for _, b := range pf.Blocks {
+				for _, in := range b.Instrs {
+					call, ok := in.(*ssa.Call)
+					if !ok {
+						continue
+					}
+					bi, ok := call.Call.Value.(*ssa.Builtin)
+					if !ok || bi.Name() != "append" || len(call.Call.Args) != 2 {
+						continue
+					}
+					sl, ok := call.Call.Args[1].(*ssa.Slice)
+					if !ok {
+						continue
+					}
+					al, ok := sl.X.(*ssa.Alloc)
+					if !ok {
+						continue
+					}
+					for _, r := range *al.Referrers() {
+						ia, ok := r.(*ssa.IndexAddr)
+						if !ok {
+							continue
+						}
+						for _, rr := range *ia.Referrers() {
+							if st, ok := rr.(*ssa.Store); ok && st.Addr == ia && derivesFrom(st.Val, func(x ssa.Value) bool { return x == n }) {
+								out = append(out, call)
+							}
+						}
+					}
+				}
+			}
+			return out
+		}
+		for _, b := range pf.Blocks {
+			for _, in := range b.Instrs {
+				ta, ok := in.(*ssa.TypeAssert)
+				if !ok || !ta.CommaOk {
+					continue
+				}
+				nm := ownerName(ta.AssertedType)
+				if nm != "shortNode" && nm != "fullNode" {
+					continue
+				}
+				// innermost loop containing the assertion
+				var header *ssa.BasicBlock
+				for _, hb := range pf.Blocks {
+					if isLoopHeader(hb) && naturalLoop(hb)[b] {
+						if header == nil || naturalLoop(header)[hb] {
+							header = hb
+						}
+					}
+				}
+				if header == nil {
+					continue
+				}
+				var nval ssa.Value
+				var okv ssa.Value
+				for _, r := range *ta.Referrers() {
+					if ex, ok := r.(*ssa.Extract); ok {
+						if ex.Index == 0 {
+							nval = ex
+						} else {
+							okv = ex
+						}
+					}
+				}
+				if nval == nil || okv == nil {
+					continue
+				}
+				// the block entered when the assertion holds
+				var start *ssa.BasicBlock
+				for _, r := range *okv.Referrers() {
+					if iff, ok := r.(*ssa.If); ok {
+						start = iff.Block().Succs[0]
+					}
+				}
+				if start == nil {
+					continue
+				}
+				nT7++
+				c.sites++
+				gates := instrSet(appended(nval))
+				okAll := len(gates) > 0
+				var bad *ssa.BasicBlock
+				if okAll {
+					seen := map[*ssa.BasicBlock]bool{}
+					work := []*ssa.BasicBlock{start}
+					for len(work) > 0 && okAll {
+						x := work[len(work)-1]
+						work = work[:len(work)-1]
+						if seen[x] {
+							continue
+						}
+						seen[x] = true
+						if blockHasAny(x, gates) {
+							continue
+						}
+						if x == header || !naturalLoop(header)[x] {
+							if _, isPanic := x.Instrs[len(x.Instrs)-1].(*ssa.Panic); isPanic && x != header {
+								continue
+							}
+							okAll = false
+							bad = x
+							break
+						}
+						if _, isPanic := x.Instrs[len(x.Instrs)-1].(*ssa.Panic); isPanic {
+							continue
+						}
+						work = append(work, x.Succs...)
+					}
+				}
+				why := "no append of the visited node was found"
+				if bad != nil {
+					why = fmt.Sprintf("a path from the %s case reaches %s without appending the node", nm, ifelse(bad == header, "the next iteration", "the loop exit"))
+				}
+				c.Check(fmt.Sprintf("%s#collects-every-%s", fname(prove), nm), ta.Pos(), okAll, ifelse(okAll, "appended on every path through the case", why+": proofs of absence (or of keys below it) miss the deciding node and do not verify"))
+			}
+		}
+	}
+	if nT7 == 0 {
+		c.Undecided(fname(prove)+"#collects-visited-nodes", prove.Pos(), "no type switch over *shortNode / *fullNode inside a loop was found in Prove")
+	}
 }
 
 // sameNode: two base values denote the same node (same SSA value, or loads of the same local).
